@@ -431,7 +431,7 @@ pub fn gen_timer_setup(rng: &mut Rng, blocks: &mut Vec<Block>, handlers: &mut Ve
     if irqs {
         for v in [36u8, 37, 39] {
             if !handlers.iter().any(|h| h.vector == v) {
-                handlers.push(Handler { vector: v, kind: HandlerKind::Count });
+                handlers.push(Handler { vector: v, kind: HandlerKind::Count, at_zero: false });
             }
         }
     }
@@ -503,7 +503,7 @@ impl Property for C13 {
         let use_traps = rng.chance(1, 4);
         if use_traps {
             for n in 1..=3u8 {
-                handlers.push(Handler { vector: 8 + n, kind: if rng.chance(1, 2) { HandlerKind::Empty } else { HandlerKind::Count } });
+                handlers.push(Handler { vector: 8 + n, kind: if rng.chance(1, 2) { HandlerKind::Empty } else { HandlerKind::Count }, at_zero: false });
             }
         }
         // how many sync thresholds to pass: mostly none, sometimes just below / just above / several
